@@ -43,7 +43,7 @@ def validate_parts(ctx, module, cfg, files, tag, n=8, timeout=1500, heap="3g"):
     return V.parallel(one, files, n=n)
 
 
-_re_set = re.compile(r'"([A-Za-z0-9_]+)"')
+_re_set = re.compile(r'"([A-Za-z0-9_:]+)"')
 
 
 def clause_names(expected_text):
